@@ -63,6 +63,10 @@ structure Cfg where
       (`hostlist_delete_nth`, `hostlist_remove`), every iterator in that record is kept on the host
       it handed out last (`hostlist_host_deleted`) -/
   fixIterDelete : Bool := false
+  /-- F02-2BR (opt.c `opt_args`): the working collective is re-expanded (second pair of brackets)
+      BEFORE the exclusions and filters act on it, and `wcoll_apply_excluded` hands every first-level
+      name of an exclusion argument to `hostlist_delete`, which expands its second pair -/
+  fix2Br : Bool := false
   deriving DecidableEq, Repr, Inhabited
 
 /-- the code as found -/
@@ -71,14 +75,14 @@ def Cfg.unchanged : Cfg :=
     fixSuffixBal := false, fixHostBuf := false, fixNth := false, fixRemoveDepth := false,
     fixPopIter := false, fixCmpTrunc := false, fixDeleteAll := false, fixPushLoop := false,
     fixEndPush := false, fixUniqReset := false,
-    fixIterDelete := false }
+    fixIterDelete := false, fix2Br := false }
 /-- the code with findings/C01.patch, C15.patch (and D24 of C16.patch) applied -/
 def Cfg.repaired : Cfg :=
   { fixUlongMax := true, fixDigits := true, fixIterSuffix := true, fixCurTok := true,
     fixSuffixBal := true, fixHostBuf := true, fixNth := true, fixRemoveDepth := true,
     fixPopIter := true, fixCmpTrunc := true, fixDeleteAll := true, fixPushLoop := true,
     fixEndPush := true, fixUniqReset := true,
-    fixIterDelete := true }
+    fixIterDelete := true, fix2Br := true }
 
 /-! ### `unsigned long` -/
 def U64 : Nat := 18446744073709551616
